@@ -122,6 +122,15 @@ func c05Check(c *caseCtx, g *genReq, d decision) *electreOut {
 	for _, a := range s.Cons {
 		alts = append(alts, a.V)
 	}
+	wantA, wantB := -0.15, 0.3 // the documented default
+	if df := subM(g.M["methodParameters"].(M), "electreDistillation"); df != nil {
+		wantA, wantB = numOr(df, "a", 0), numOr(df, "b", 0)
+	}
+	if s.Params.DistA != wantA || s.Params.DistB != wantB {
+		c.violate("electre-distillation-function", fmt.Sprintf("the distillation function in force is (a=%v, b=%v); the request specifies / defaults to (a=%v, b=%v)", s.Params.DistA, s.Params.DistB, wantA, wantB),
+			M{"request": g.M})
+		return o
+	}
 	sf := distFn{s.Params.DistA, s.Params.DistB}
 	asc, desc, mg := refElectre(crits, alts, sf)
 	if mg.min != 0 && mg.min < 1e-9 {
@@ -168,6 +177,14 @@ func c05Gen(c *caseCtx, nb int) *genReq {
 		o.profile = profDyadic
 	default:
 		o.profile = profReals
+	}
+	if c.rng.Intn(3) == 0 {
+		// several criteria with veto thresholds: pairs with more than one discordant criterion
+		o.vetoHeavy = true
+		o.minCrit, o.maxCrit = 3, 5
+		if o.profile == profTies {
+			o.profile = profDyadic
+		}
 	}
 	return genRequest(c.rng, o)
 }
